@@ -181,6 +181,7 @@ def plan(tier, seed):
                  ('mix-rel', 'release', 'cache_trace', ['gen', str(seed + 1), '500', '60', 'mix']),
                  ('big-rel', 'release', 'cache_trace', ['gen', str(seed + 2), '16', '500', 'big']),
                  ('forget-rel', 'release', 'cache_trace', ['gen', str(seed + 3), '150', '40', 'forget']),
+                 ('churn-rel', 'release', 'cache_trace', ['gen', str(seed + 4), '30', '600', 'churn']),
                  ('exh2-dbg', 'debug', 'cache_trace', ['exhaust', '2', '0', '1']),
                  ('panic-dbg', 'debug', 'panic_trace', [str(seed), '10', '6', '16']),
                  ('panic-rel', 'release', 'panic_trace', [str(seed + 1), '14', '9', '16'])]
@@ -193,6 +194,7 @@ def plan(tier, seed):
             jobs.append(('mix-dbg-%d' % i, 'debug', 'cache_trace', ['gen', str(seed * 100 + 20 + i), '1500', '80', 'mix']))
             jobs.append(('big-rel-%d' % i, 'release', 'cache_trace', ['gen', str(seed * 100 + 40 + i), '120', '800', 'big']))
             jobs.append(('forget-rel-%d' % i, 'release', 'cache_trace', ['gen', str(seed * 100 + 60 + i), '2000', '40', 'forget']))
+            jobs.append(('churn-rel-%d' % i, 'release', 'cache_trace', ['gen', str(seed * 100 + 70 + i), '200', '800', 'churn']))
             jobs.append(('panic-rel-%d' % i, 'release', 'panic_trace', [str(seed * 100 + 80 + i), '120', '10', '40']))
             jobs.append(('panic-dbg-%d' % i, 'debug', 'panic_trace', [str(seed * 100 + 90 + i), '60', '8', '40']))
     return jobs
@@ -447,7 +449,13 @@ def main():
                   'found in job %s trace %d step %d (%d failing steps in this group)' % (f['job'], f['trace'], f['step'], len(fs)),
                   'shrunk=%s' % shrunk, 'replay: tools/check.py %s --replay <this file>' % pid] + [t.strip() for t in f['text']]
         path = write_replay(pid, sig, header, small)
-        violations.append((path, 'implementation and model/monitor disagree at %s' % sig, False))
+        # components that only tie the model to the code (the property does not fix what they compare): when nothing
+        # but those fails, the model no longer describes the code at this step but no input violating the property itself
+        # was found; the replay is the step where the correspondence breaks
+        corr_only = set(cfg.get('corr_only', []))
+        nofail = bool(hit) and all(c in corr_only for c in hit)
+        violations.append((path, ('correspondence between model and implementation broken at %s (the property\'s own monitors hold on this input)' % sig) if nofail
+                           else 'implementation and model/monitor disagree at %s' % sig, nofail))
 
     for cr in corr.get('crashes', []):
         # the implementation killed the harness process: the last trace of the stream is the failing input
